@@ -41,6 +41,13 @@ fn session(args: &[String]) {
     let script = read_stdin();
     for (i, input) in script.split("\n%%\n").enumerate() {
         let input = input.trim_end_matches('\n');
+        if html && input.starts_with("%info ") {
+            // the `info <name>` view of the web front end: rendered WITH indentation
+            let info = ctx.print_info_for_keyword(input["%info ".len()..].trim());
+            println!("[{i}] OK-HTML {}", HtmlFormatter {}.format(&info, true).replace('\n', "\\n"));
+            println!("[{i}] OK-HTML {}", HtmlFormatter {}.format(&info, false).replace('\n', "\\n"));
+            continue;
+        }
         let printed: Arc<Mutex<Vec<m::Markup>>> = Arc::new(Mutex::new(vec![]));
         let pc = printed.clone();
         let mut settings = InterpreterSettings {
